@@ -78,6 +78,9 @@ def base_instance(rng, *, vtype=None, k=None, N=None, hermitian_mode=True, fdkin
                                           fdkind=rng.choice(fdkinds) if fdkinds else None,
                                           hermitian=hermitian_mode)
             inst["format"] = rng.choice(FORMATS)
+            # symbols of the symbolic containers in NON-alphabetical order ("q" < "a" is false): an explicit
+            # `symbols=` list fixes the order of the order indices, monomial keys are sorted by the library
+            inst["symnames"] = ["q", "a", "m", "z"]
             if (inst["vtype"] == "sympy" and inst["d"] <= 3 and inst["N"] <= 3 and rng.random() < 0.3
                     and all(hermitian.epair(e)[1] == 0 for e in inst["E"])):
                 inst["symbolic_consts"] = True      # symbolic unperturbed levels and coupling constant
@@ -342,7 +345,9 @@ def pair_format(rng):
     B = copy.deepcopy(A)
     B["format"] = rng.choice(["list", "symkeys", "sympy_matrix", "blockseries", "symkeys",
                               "blocklist", "blockdict", "blockseries2"])
-    if B["format"] == "symkeys":
+    if B["format"] in ("symkeys", "sympy_matrix"):
+        # symbol names in NON-alphabetical order: for a sympy matrix the order of `symbols=` is the order of
+        # the order indices, for monomial keys the library sorts by name (read back from dimension_names)
         names = ["q", "a", "m", "z"][: A["k"]]
         rng.shuffle(names)
         B["symnames"] = names
